@@ -74,7 +74,9 @@ enum
     P_C07,
     P_C08,
     P_C09,
-    P_C10
+    P_C10,
+    P_C02, // integration-level part of the channel properties (see the rules below)
+    P_C03
 };
 
 enum
@@ -128,7 +130,7 @@ const VhSpec kSpec = {
     kKinds,
     K_COUNT,
     70,
-    { "C04", "C05", "C06", "C07", "C08", "C09", "C10", nullptr },
+    { "C04", "C05", "C06", "C07", "C08", "C09", "C10", "C02", "C03", nullptr },
     { "acquisition_completed", "two_acquisitions", "two_streams", "ring_wrapped_3x", "sink_caught_up_at_wrap", "source_blocked_on_full_ring",
       "monitor_lagging", "write_delay", "image_bytes_not_multiple_of_8", "packet_right_after_wrap", "partial_consume", "monitor_used",
       "monitor_first_used_in_later_acquisition", "client_holds_region", "abort", "abort_while_worker_blocked", "abort_while_client_mapped",
@@ -141,7 +143,10 @@ const VhSpec kSpec = {
       "C07 non-trivial: abort issued while a worker fiber was blocked (ring full, trigger wait) or while the client held a mapping",
       "C08 non-trivial: >=2 acquisitions AND (a device switch, or start-while-running, or a stream disabled/enabled between runs)",
       "C09 non-trivial: an injected device fault fired while the source was blocked on a full ring, or after >=1 wrap",
-      "C10 non-trivial: >=2 complete averaging windows AND >=1 wrap of the sink ring", nullptr },
+      "C10 non-trivial: >=2 complete averaging windows AND >=1 wrap of the sink ring",
+      "C02 (integration part) non-trivial: a consumer held a region while the source kept writing: the monitoring client slept on a mapped region, or the storage device spent time inside append",
+      "C03 (integration part) non-trivial: the source thread was seen asleep inside channel_write_map (ring full) and the acquisition was then ended by stop, abort or a device fault",
+      nullptr },
 };
 
 struct StreamCfg
@@ -191,6 +196,7 @@ struct Mon
     VideoFrame* beg = nullptr;
     VideoFrame* end = nullptr;
     std::vector<size_t> frame_sizes; // of the mapped region
+    std::vector<uint8_t> held;       // copy of the mapped bytes (zero-copy consumers must not see them change)
     bool known = false;
     uint64_t next_id = 0;   // next frame id expected (valid when known)
     int acq_seen = -1;      // acquisition index the cursor belongs to
@@ -380,6 +386,7 @@ on_append_hook(vmock::Instance* st, const VideoFrame* frames, size_t n)
             for (int f = 0; f < vsim::nfibers(); ++f)
                 if (f != x.f_client && f != x.f_other && f != vsim::current() && vsim::info(f).st == vsim::BLK_COND) {
                     x.c.cls(CL_SOURCE_BLOCKED); // a worker sleeps inside channel_write_map: the ring is full
+                    x.c.nontrivial(P_C03);
                     for (size_t ai : x.cur_acqs)
                         if (x.acqs[ai].stream == stream && x.acqs[ai].cfg.fault_site)
                             x.c.cls(CL_FAULT_WHILE_BLOCKED), x.c.nontrivial(P_C09);
@@ -555,8 +562,8 @@ check_averaging(Ctx& x, AcqRec& a, bool complete)
 const char*
 hang_prop(Ctx& x)
 {
-    if (vh_focus && !strcmp(vh_focus, "C08"))
-        return "C08";
+    if (vh_focus && (!strcmp(vh_focus, "C08") || !strcmp(vh_focus, "C03")))
+        return vh_focus; // C03 (integration part): a writer blocked in channel_write_map that is never released
     return x.any_fault_in_case ? "C09" : "C07";
 }
 
@@ -957,6 +964,7 @@ do_map(Ctx& x, int s)
         }
     if (!enabled_now && !m.registered)
         return; // monitoring a stream that never ran: nothing to observe
+    m.held.clear(); // (a region held across an abort was released by the abort's flush)
     VideoFrame *b = nullptr, *e = nullptr;
     AcquireStatusCode r = acquire_map_read(x.rt, (uint32_t)s, &b, &e);
     bool first = !m.registered;
@@ -990,6 +998,7 @@ do_map(Ctx& x, int s)
     }
     for (const VideoFrame* f : frames)
         m.frame_sizes.push_back(f->bytes_of_frame);
+    m.held.assign((const uint8_t*)b, (const uint8_t*)b + n);
     if (!x.running) {
         x.c.fail(leftover_prop(x), "data-while-idle", "stale", "stream %d: the monitor received %zu frames although no acquisition is running", s, frames.size());
         return;
@@ -1103,7 +1112,18 @@ do_unmap(Ctx& x, int s, unsigned sel)
         if (x.started_acqs >= 2)
             x.c.nontrivial(P_C06);
     }
-    // mapped bytes must not have changed while held (zero-copy consumers): re-walk
+    // mapped bytes must not have changed while held (zero-copy consumers)
+    if (!m.held.empty() && m.beg) {
+        const uint8_t* now = (const uint8_t*)m.beg;
+        for (size_t k = 0; k < m.held.size(); ++k)
+            if (now[k] != m.held[k]) {
+                if (x.c.fail_soft("C02", "mapped-region-modified", "monitor", "stream %d: byte %zu of the %zu-byte region the monitoring client holds changed while it was mapped", s, k,
+                                  m.held.size()))
+                    return;
+                break;
+            }
+    }
+    m.held.clear();
     x.c.trace("client: UNMAP stream %d consumed %zu of %zu frames (%zu bytes)", s, take, nf, bytes);
     AcquireStatusCode r = acquire_unmap_read(x.rt, (uint32_t)s, bytes);
     m.mapped = false;
@@ -1203,7 +1223,7 @@ do_stop_when_done(Ctx& x)
                                   ch->capacity, ch->head, ch->high, ch->cycle, ch->mapped, (int)ch->is_accepting_writes, ch->holds.n, ch->holds.pos[0],
                                   ch->holds.cycles[0], ch->holds.pos[1], ch->holds.cycles[1]);
                     }
-                x.c.fail(any_fault ? "C09" : "C04", "acquisition-hangs", any_fault ? "after-device-fault" : "no-fault",
+                x.c.fail(vh_focus && !strcmp(vh_focus, "C03") ? "C03" : any_fault ? "C09" : "C04", "acquisition-hangs", any_fault ? "after-device-fault" : "no-fault",
                          "the runtime reports Running but no device call has happened for 1 s of virtual time (workers: %s): the acquisition never finishes and acquire_stop would wait forever",
                          who.c_str());
                 break;
@@ -1530,6 +1550,7 @@ client_main(void*)
                 bool holding = x.mon[0].mapped || x.mon[1].mapped;
                 if (holding && x.running) {
                     x.c.cls(CL_HOLD);
+                    x.c.nontrivial(P_C02);
                     if (x.started_acqs >= 2)
                         x.c.nontrivial(P_C06);
                 }
@@ -1853,6 +1874,8 @@ vh_run(const VhTok* tape, size_t n, VhReport* rep)
     vsim::RunResult rr = vsim::run(x.sched, 400000, done, &blocked);
     if (x.sched.preemptions)
         x.c.cls(CL_PREEMPT);
+    if (vmock::hub.slow_appends)
+        x.c.nontrivial(P_C02);
     if (vsim::edge_preemptions())
         x.c.cls(CL_FINE);
     if (!x.c.ended) {
